@@ -493,10 +493,10 @@ func c18r4(c *Ctx) {
 		if n.Block != nil {
 			if cc, ok := n.Block.Stmt.(*ast.CommClause); ok && cc.Comm != nil && recvFieldComm(addF, cc, closed) && n.Block.Kind.String() == "SelectCaseBody" {
 				// all returns reachable from this body are error returns
-				r := addF.Graph().Reach([]*cfgx.Visit{cfgx.StartAt(n, 0)}, nil)
+				// (per path: the error may be stored in a result variable and returned at a single exit)
 				good = true
-				for m := range r {
-					if _, isRet := m.AST.(*ast.ReturnStmt); isRet && addF.ClassifyReturn(m) != ir.RetError {
+				for _, kinds := range addF.ReturnKindsFrom([]*cfgx.Visit{cfgx.StartAt(n, 0)}) {
+					if kinds&^(1<<uint(ir.RetError)) != 0 {
 						good = false
 					}
 				}
@@ -588,7 +588,8 @@ func onlyViaOpenCase(f *ir.Func, n *cfgx.Node, closed *types.Var) bool {
 
 func c18r5(c *Ctx) {
 	n := 0
-	for _, f := range c.P.MethodsOf("syncer", "Syncer") {
+	// (helpers expanded: the semaphore may be a small type of its own with an acquire method)
+	for _, f := range c.P.Views("syncer", ir.ExpandOpt{Key: "all"}).Roots {
 		ir.Walk(f.Body, false, func(x ast.Node) {
 			ss, ok := x.(*ast.SelectStmt)
 			if !ok {
